@@ -43,12 +43,12 @@ func c13Builtin(net int) (*params.ChainConfig, *c13Sched) {
 	case 0: // mainnet; HF8 is flag-activated (absent in the built-in map)
 		cfg, s.mainnet = params.MainnetChainConfig, true
 		set(1, 3600, 2, 7200, 3, 13026, 4, 21800, 5, 22800, 6, 36000, 7, 36050)
-	case 1: // public testnet
-		cfg = params.TestnetChainConfig
-		set(1, 1, 2, 2, 3, 3, 4, 4, 5, 5, 6, 6, 7, 25, 8, 650)
-	case 2: // testnet2
+	case 1: // testnet2
 		cfg = params.Testnet2ChainConfig
 		set(5, 0, 6, 0, 7, 0, 8, 8, 9, 19)
+	case 2: // public testnet
+		cfg = params.TestnetChainConfig
+		set(1, 1, 2, 2, 3, 3, 4, 4, 5, 5, 6, 6, 7, 25, 8, 650)
 	case 3: // testnet3
 		cfg = params.Testnet3ChainConfig
 		set(5, 0, 7, 0)
@@ -502,4 +502,142 @@ func VerifC13_Uncles() {
 		vs.Assert(c.parent != nil && c.parent.Root == c.uncle.ParentHash, "uncle verified against the ancestor it names as parent")
 		vs.Assert(c.grandparent == nil || c.grandparent.Root == c.parent.ParentHash, "grandparent is the parent's parent")
 	}
+}
+
+// ---------------------------------------------------------------------------
+// batch verification: the data part of "batch = one by one"
+
+// VerifC13_BatchWorker: for a contiguous batch (what ValidateHeaderChain
+// admits) verifyHeaderWorker(index) reaches the same verdict, and hands
+// verifyHeader the same parent, grandparent and seal flag, as VerifyHeader
+// does when the preceding headers of the batch have been verified and stored
+// one by one.  verifyHeader itself is a recording stub (suite override).
+func VerifC13_BatchWorker() {
+	cfg, _ := c13Builtin(0)
+	n0 := []uint64{1, 2, 3, 4, 1000}[vs.Choice("first", 5)]
+	L := vs.Param("batch")
+	index := vs.Choice("index", L)
+	base := &c13Tree{cfg: cfg}
+	mk := func(id, parent byte, num uint64) *types.Block {
+		return types.NewBlockWithHeader(&types.Header{Root: c13ID(id), ParentHash: c13ID(parent), Number: new(big.Int).SetUint64(num),
+			Time: new(big.Int), Difficulty: new(big.Int), Version: 1})
+	}
+	// stored chain: the batch's parent (id 1) and grandparent (id 2) as far as
+	// they exist; mode 1: the parent is unknown; mode 2: the first header is already stored
+	mode := vs.Choice("chain", 3)
+	if mode != 1 {
+		base.blocks = append(base.blocks, mk(1, 2, n0-1))
+		if n0 >= 2 {
+			base.blocks = append(base.blocks, mk(2, 3, n0-2))
+		}
+	}
+	var headers []*types.Header
+	var seals []bool
+	for i := 0; i < L; i++ {
+		b := mk(byte(10+i), byte(10+i-1), n0+uint64(i))
+		if i == 0 {
+			b = mk(10, 1, n0)
+		}
+		headers = append(headers, b.Header())
+		seals = append(seals, vs.Bool("seal"))
+		if mode == 2 && i == 0 {
+			base.blocks = append(base.blocks, b)
+		}
+	}
+	if mode == 1 {
+		vs.Assume(index == 0) // first failure is at index 0; later results are not compared
+	}
+	engine := &Aquahash{config: &Config{PowMode: ModeNormal}}
+
+	c13UncleCalls = nil
+	werr := engine.verifyHeaderWorker(base, headers, seals, index)
+	wcalls := c13UncleCalls
+
+	// one by one: headers before index have been verified and stored
+	seq := &c13Tree{cfg: cfg, blocks: append([]*types.Block{}, base.blocks...)}
+	for i := 0; i < index; i++ {
+		seq.blocks = append(seq.blocks, types.NewBlockWithHeader(headers[i]))
+	}
+	c13UncleCalls = nil
+	serr := engine.VerifyHeader(seq, headers[index], seals[index])
+	scalls := c13UncleCalls
+
+	vs.Assert((werr == nil) == (serr == nil), "batch worker and one-by-one verification agree on the verdict")
+	vs.Assert(len(wcalls) == len(scalls) && len(wcalls) <= 1, "both verify the header body at most once, or neither does")
+	if len(wcalls) == 1 && len(scalls) == 1 {
+		vs.Reach("verified")
+		w, s := wcalls[0], scalls[0]
+		vs.Assert(w.uncle.Root == s.uncle.Root && w.uncle.Root == headers[index].Root, "same header")
+		vs.Assert(w.parent != nil && s.parent != nil && w.parent.Root == s.parent.Root, "same parent")
+		vs.Assert((w.grandparent == nil) == (s.grandparent == nil), "grandparent present in both or in neither")
+		if w.grandparent != nil && s.grandparent != nil {
+			vs.Assert(w.grandparent.Root == s.grandparent.Root, "same grandparent")
+		}
+		vs.Assert(!w.isUncle && !s.isUncle && w.seal == seals[index] && s.seal == seals[index], "block mode, requested seal flag")
+	} else {
+		vs.Reach("not-verified")
+	}
+}
+
+// ---------------------------------------------------------------------------
+// symbolic fork schedules (covers the flag-activated HF8 of the main network
+// and the HF9/HF10 code paths that no built-in map schedules)
+
+// c13Shapes: which forks a schedule contains (negative: present from genesis).
+// Heights of the listed forks are symbolic and strictly increasing.
+var c13Shapes = [][]int{
+	{1, 2, 3, 4, 5, 6, 7, 8},        // main network with HF8 activated by flag
+	{1, 2, 3, 4, 5, 6, 7, 8, 9, 10}, // everything
+	{-5, -6, -7, 8, 9},              // testnet2-like
+	{1, 2, 3, 4, 5, 6, 7, 8, 9},
+	{1, 2, 3, 4, 5, 6, 7, 10},
+	{1, 2, 3, 4, 5, 6, 7},
+	{1, 2, 3, 4, 5, 6},
+	{1, 2, 3, 4, 5},
+	{1, 2, 3},
+	{1, 2},
+	{1},
+	{},
+	{-1, -2, -3, -4, -5, -6, -7, 8, 10},
+}
+
+// VerifC13_DifficultySchedules: CalcDifficulty == reference formula for
+// symbolic fork heights, with and without a grandparent.
+func VerifC13_DifficultySchedules() {
+	shape := c13Shapes[vs.Choice("shape", vs.Param("shapes"))]
+	sched := &c13Sched{mainnet: vs.Choice("mainnet", 2) == 1}
+	hf := params.ForkMap{}
+	var prev *big.Int
+	for _, i := range shape {
+		var h *big.Int
+		if i < 0 {
+			i, h = -i, c13b(0)
+		} else {
+			h = vs.BigU("hf", 64)
+			if prev != nil {
+				vs.Assume(h.Cmp(prev) > 0)
+			}
+			prev = h
+		}
+		sched.hf[i], hf[i] = h, new(big.Int).Set(h)
+	}
+	cfg := &params.ChainConfig{ChainId: c13b(999), HF: hf}
+	if sched.mainnet {
+		cfg.ChainId = c13b(61717561)
+	}
+	parent := c13ValidHeader("p")
+	t := vs.U64("time")
+	bt := new(big.Int).SetUint64(t)
+	vs.Assume(bt.Cmp(parent.Time) > 0)
+	var gp *types.Header
+	gt, gd := new(big.Int), new(big.Int)
+	if vs.Choice("grandparent", 2) == 1 {
+		gp = c13ValidHeader("g")
+		vs.Assume(gp.Time.Cmp(parent.Time) < 0) // a valid chain: the parent is later than its own parent
+		gt, gd = gp.Time, gp.Difficulty
+	}
+	got := CalcDifficulty(cfg, t, parent, gp)
+	want := sched.refDifficulty(bt, parent.Time, parent.Difficulty, parent.Number, gp != nil, gt, gd)
+	vs.Observe("difficulty", got)
+	vs.Assert(got.Cmp(want) == 0, "CalcDifficulty equals the scheduled formula")
 }
